@@ -20,7 +20,9 @@ import (
 // the bubble therefore looks at goroutine dumps when a bubble has not finished after
 // VERIF_STUCK_AFTER real seconds (default 240): if the same set of repository goroutines, all
 // waiting for locks and none running, shows in four consecutive dumps, it records a deadlock
-// violation for the current case and ends the process; anything else is recorded as inconclusive.
+// violation for the current case and ends the process; a bubble that shows no such cycle is left
+// running (it may just be slow) and is recorded as inconclusive only after a further
+// VERIF_STUCK_GIVEUP seconds (default 1800).
 func InBubble(t *testing.T, f func()) (panicked any, leftover bool) {
 	done := make(chan struct{})
 	go bubbleWatchdog(done)
@@ -90,9 +92,18 @@ func bubbleWatchdog(done chan struct{}) {
 		return
 	case <-time.After(after):
 	}
+	// From now on look for a lock cycle every 3 s. A bubble that is merely slow (loaded machine) shows
+	// changing wait sets and is left alone until it finishes; only after giveUp without a stable lock
+	// cycle is the case called inconclusive (the driver's wall-clock watchdog is the last resort).
+	giveUp := 1800 * time.Second
+	if s := os.Getenv("VERIF_STUCK_GIVEUP"); s != "" {
+		if d, err := time.ParseDuration(s + "s"); err == nil {
+			giveUp = d
+		}
+	}
 	prev, stable := "", 0
 	verdict, detail := "inconclusive", ""
-	for poll := 0; poll < 8; poll++ {
+	for start := time.Now(); time.Since(start) < giveUp; {
 		select {
 		case <-done:
 			return
@@ -110,8 +121,13 @@ func bubbleWatchdog(done chan struct{}) {
 			stable = 0
 		}
 		prev = set
-		time.Sleep(3 * time.Second)
+		select {
+		case <-done:
+			return
+		case <-time.After(3 * time.Second):
+		}
 	}
+	after += giveUp
 	curMu.Lock()
 	r, id := curReporter, curCase
 	curMu.Unlock()
